@@ -70,7 +70,8 @@ class Batch:
                     problems.append(f"final state: model {fin} vs client {real['final']}")
                 if model_steps(ans) != (real["steps"] or 0) and real["final"][0] != "crashed":
                     problems.append(f"handler invocations: model {model_steps(ans)} vs client {real['steps']}")
-                if want_screen and real["final"][0] != "crashed" and model_screen(ans) != real["screen"]:
+                elided = real["screen"] is not None and real["screen"][1] == b"elided"
+                if want_screen and not elided and real["final"][0] != "crashed" and model_screen(ans) != real["screen"]:
                     ms, rs = model_screen(ans), real["screen"]
                     problems.append(f"screen differs: model size {ms and ms[0]} client size {rs and rs[0]}")
             if problems and len(camp.model_mismatches) < 5:
